@@ -511,6 +511,8 @@ class SelectorWorld:
                 self.count("out_of_domain_prefix_object_on_other_data")
                 m["retired"] = True
                 return
+        if not warm and not (op.get("rejected_refit") and m.get("cold_X")):
+            m["cold_X"] = op["X"]  # the array (hence the memory layout) of the latest cold fit
         if self.pid == "C08" and not op.get("expect"):
             self.c08_prepare(name, m, op)
         if op.get("rejected_refit") and m.get("cold_X"):
@@ -519,8 +521,6 @@ class SelectorWorld:
             # (PCov-FPS rebuilds its modified Gram matrix) then rounds as it did originally,
             # and the continuation is compared with the twin to the usual allowance
             X = self.heap.twin_copy_like(op["X"], m["cold_X"])
-        elif not warm:
-            m["cold_X"] = op["X"]  # the array (hence the memory layout) of the latest cold fit
         rec = FitRecord(obj, info["axis"], tables=self.pid == "C06")
         self._cur = rec
         self.env.progress.on_step = rec.on_step
@@ -1225,7 +1225,8 @@ class SelectorWorld:
         p["n_to_select"] = int(m["final"])
         p.pop("score_threshold", None)
         p.pop("score_threshold_type", None)
-        tw = self.quiet_twin(cls, p, op["X"], op.get("y"))  # the first fit of the object: its own layout
+        # (every reference fit of an object has the memory layout of the object's own cold fit)
+        tw = self.quiet_twin(cls, p, op["X"], op.get("y"), layout_of=m.get("cold_X"))
         if tw["exc"] is not None:
             return
         t, trec = tw["obj"], tw["rec"]
